@@ -378,9 +378,9 @@ class DiffPolyKernel(DiffKernelMixin, Kernel):
         elif eval_gradient:
             raise ValueError
         optg = not self.hyperparameter_gamma.fixed
-        if eval_gradient and optg:
-            dk = 0
         dot1 = (self.gamma * X).dot(Y.T)
+        if eval_gradient and optg:
+            dk = np.zeros(dot1.shape, dtype=dot1.dtype)
         dotn = 1
         for n in range(1, self.order + 1):
             if self.factorial:
